@@ -95,7 +95,7 @@ SeqRange(s) == {s[i] : i \in 1..Len(s)}
 -----------------------------------------------------------------------------
 (* part E: ResponseEmit's clause operators on the record (fields c, ev, pieces, begun, closes, raised,
    sendFailed, exc, errors - the observation format of ResponseEmitTrace) *)
-RE == INSTANCE ResponseEmit WITH RenderSetsType <- FALSE, BodilessByLine <- FALSE, ForgetCloseOnFault <- FALSE, StaleLengthOnRenderFault <- FALSE,
+RE == INSTANCE ResponseEmit WITH RenderSetsType <- FALSE, BodilessByLine <- FALSE, ForgetCloseOnFault <- FALSE, StaleLengthOnRenderFault <- FALSE, StatusStringAsIs <- FALSE,
           c0 <- T.c, c <- T.c, pc <- "done", ev <- T.ev, k <- 0, hand <- -1, sends <- 0,
           begun <- T.begun, closes <- T.closes, raised <- T.raised, sendFailed <- T.sendFailed
 
